@@ -53,7 +53,7 @@ def lattice():
                "model": use_model, "interface": not use_model}
 
 
-def call_real(M, opts, T, interface=None):
+def call_real(M, opts, T, interface=None, volume_object=None, strided=False):
     from bioscrape.simulator import py_simulate_model, ModelCSimInterface, SafeModelCSimInterface
     from bioscrape.types import Volume
     from bioscrape.random import py_seed_random
@@ -68,13 +68,16 @@ def call_real(M, opts, T, interface=None):
         v = Volume()
         v.py_set_volume(1.5)
         kw["volume"] = v
+    if volume_object is not None:
+        kw["volume"] = volume_object
     if opts["model"]:
         kw["Model"] = M
     if opts["interface"]:
         kw["Interface"] = interface if interface is not None else (SafeModelCSimInterface if opts["safe"] else ModelCSimInterface)(M)
     py_seed_random(11)
     try:
-        res = py_simulate_model(T.copy(), **kw)
+        # (strided: the same requested times as a non-contiguous view of a longer buffer)
+        res = py_simulate_model(np.repeat(T, 2)[::2] if strided else T.copy(), **kw)
     except ValueError as e:
         msg = str(e)
         if "requires either a Model" in msg:
@@ -97,7 +100,45 @@ def call_real(M, opts, T, interface=None):
         out["ncols"] = int(r.shape[1])
         out["first"] = [float(v) for v in r[0]]
         out["hasVolume"] = hasattr(res, "py_get_volume")
+        if out["hasVolume"]:
+            out["nvolume"] = len(res.py_get_volume())
     return out
+
+
+def dividing_volume(ctx):
+    """a volume object that divides half way through the grid: the result has one row per requested time point up to the
+    division, a time axis that is that prefix of the requested times, and a volume trace of the same length - in every
+    stochastic mode that accepts a volume object, with and without delay, as data frame and as result object."""
+    from bioscrape.types import StochasticTimeThresholdVolume
+    T = np.linspace(0, 20.0, 41)
+    for mname in ("plain", "delays", "rules"):
+        spec = MODELS[mname]
+        for delay in (False, True):
+            for safe in (False, True):
+                for dataframe in (True, False):
+                    for strided in (False, True):
+                        opts = {"stochastic": True, "delay": delay, "safe": safe, "volume": "object", "dataframe": dataframe, "model": True, "interface": False}
+                        case = {"model": mname, "options": opts, "volume_object": "StochasticTimeThresholdVolume(cycle 10, divides at V=2, no noise)", "strided_grid": strided}
+                        ctx.begin_case(case)
+                        M = build_model(spec)
+                        v = StochasticTimeThresholdVolume(10.0, 2.0, 0.0)
+                        v.py_initialize(np.array(M.get_species_array(), dtype=float), M.get_parameter_values(), 0.0, 1.0)
+                        real = call_real(M, opts, T, volume_object=v, strided=strided)
+                        ctx.evaluated()
+                        if real["outcome"] != "result":
+                            ctx.violation("entry/dividing-volume/" + real["outcome"], "a dividing volume object with delay=%s safe=%s dataframe=%s fails from inside: %s"
+                                          % (delay, safe, dataframe, real.get("msg")), dict(case, observed=real))
+                            return
+                        n = real["rows"]
+                        tm = real["time"]
+                        ok = (tm is not None and len(tm) == n and tm == [float(t) for t in T[:n]] and 15 <= n <= 25
+                              and (dataframe or real.get("nvolume") == n))
+                        if not ok:
+                            ctx.violation("entry/dividing-volume/shape", "a dividing volume object (division near t=10 of 0..20) with delay=%s safe=%s dataframe=%s: %d rows, "
+                                          "time axis of length %s (prefix of the request: %s), volume trace %s" % (delay, safe, dataframe, n, None if tm is None else len(tm),
+                                          tm is not None and tm == [float(t) for t in T[:len(tm)]], real.get("nvolume")), dict(case, observed={k: real[k] for k in real if k != "first"}))
+                            return
+                        ctx.count("dividing_volume_cases")
 
 
 def expected_first_row(M, T, spec=None):
@@ -133,7 +174,7 @@ def run(ctx):
         sl = M.get_species_list()
         first = expected_first_row(M, T, spec)
         M = build_model(spec)
-        real = call_real(M, opts, T) if (opts["model"] or opts["interface"]) else call_real_neither(opts, T)
+        real = call_real(M, opts, T, strided=(len(reals) % 2 == 1)) if (opts["model"] or opts["interface"]) else call_real_neither(opts, T)
         if opts["model"] and opts["interface"]:
             pass
         reals.append((mname, gname, opts, real, sl, first, T))
@@ -193,6 +234,7 @@ def run(ctx):
         ctx.count("outcome:" + real["outcome"])
         ctx.sample({"model": mname, "grid": gname, "options": opts, "outcome": real["outcome"]}, cap=3)
     session_pass(ctx)
+    dividing_volume(ctx)
 
 
 def session_pass(ctx):
